@@ -78,6 +78,37 @@ impl Core {
     }
 }
 
+/// Lower-case the first character of `name`, if it has one.
+///
+/// `ident_case` slices off the first byte for `camelCase`, which panics when the name is
+/// empty (a field named `__` once the underscores are removed) or starts with a
+/// multi-byte character.
+fn lowercase_first(name: String) -> String {
+    let mut chars = name.chars();
+    match chars.next() {
+        Some(first) => first.to_ascii_lowercase().to_string() + chars.as_str(),
+        None => name,
+    }
+}
+
+impl Core {
+    /// Apply the container's `rename_all` rule to the name of a field.
+    pub(crate) fn rename_field(&self, name: &str) -> String {
+        match self.rename_rule {
+            RenameRule::CamelCase => lowercase_first(RenameRule::PascalCase.apply_to_field(name)),
+            rule => rule.apply_to_field(name),
+        }
+    }
+
+    /// Apply the container's `rename_all` rule to the name of a variant.
+    pub(crate) fn rename_variant(&self, name: &str) -> String {
+        match self.rename_rule {
+            RenameRule::CamelCase => lowercase_first(name.to_owned()),
+            rule => rule.apply_to_variant(name),
+        }
+    }
+}
+
 impl ParseAttribute for Core {
     fn parse_nested(&mut self, mi: &syn::Meta) -> Result<()> {
         let path = mi.path();
